@@ -157,7 +157,7 @@ def base_cases(ctx):
     return out
 
 
-def correspond(ctx):
+def _correspond_programs(ctx):
     rnd = ctx.rng("edits")
     base = base_cases(ctx)
     variants = []
@@ -249,3 +249,23 @@ def replay(payload):
     want = expected_after(o[0], edits) if o else None
     print("edits %s\noriginal %s\nvariant  %s\nrequired %s" % (edits, o and o[0], d and d[0], want))
     return o is not None and d is not None and d[0] == want
+
+
+def correspond(ctx):
+    """the program stream above PLUS forests of the Lean type `Prog PTok` decorated with comments and suppression
+    markers (harness/mark_stream.py): the expectation is the MARKED tree report computed by the model driver
+    (`Props/C01marks.lean`: comments anywhere are invisible, a function named on a marked line is dissolved into its
+    tokens - the tree-level form of this property)"""
+    import mark_stream
+    res = _correspond_programs(ctx)
+    mk = mark_stream.correspond(ctx.rng("marktrees-%s" % ID), ctx.pick(250, 3000))
+    for key in ("lexer_mismatch", "generator_bug", "model_errors"):
+        for x in mk.get(key, [])[:10]:
+            res["disagreements"].append({"stream": "marktree/%s" % key, "input": x.get("input"),
+                                         "model": str(x.get("forest") or x.get("why") or x.get("model"))[:300], "impl": str(x.get("real", ""))[:300]})
+    res["oracle_failures"] = list(res["oracle_failures"]) + mk["oracle_failures"][:20]
+    res["evaluations"] += mk["evaluations"]
+    res["distinct_nontrivial"] += mk["distinct_nontrivial"]
+    res["rule"] += " PLUS " + mk["rule"]
+    res["distribution"] = dict(res.get("distribution", {}), marktrees=dict(mk["distribution"], **mk.get("counts", {})))
+    return res
